@@ -204,6 +204,14 @@ Definition pointwise_fill (fv : car) (y : nvec) (g : car -> nat -> car) : nat ->
 Definition pointwise_del (n : nat) (y : nvec) (g : car -> nat -> car) : nat -> car :=
   let l := obs_list n (is_obs y) in fun a => g (y_del n y a O) (sel l a).
 
+(* NOT the code (a reading the property excludes; kept to state that it is wrong): the missing
+   mask re-derived from the FILLED tensor by comparing with the fill value, [eqb] any boolean
+   equality test ("target == fill_value" after nan_to_num instead of isnan before it).  A
+   genuine observation equal to the fill value is then treated as missing. *)
+Definition pointwise_fill_by_value (eqb : car -> car -> bool) (fv : car) (y : nvec)
+  (g : car -> nat -> car) : nat -> car :=
+  fun i => g (vals fv y i O) i * (if eqb (vals fv y i O) fv then 0 else 1).
+
 End Missing.
 
 (* ---- executable instance ------------------------------------------------------------- *)
